@@ -108,7 +108,9 @@ def expand(unit):
 def build(formula, df, **ns):
     from formulae import design_matrices
 
-    return design_matrices(formula, df, extra_namespace=dict(ns, np=np))
+    # (the caller's namespace also holds ordinary objects named like the helpers and their aliases: the helpers come first)
+    decoys = {"p": 0.25, "B": 32, "T": 10, "S": "s", "binary": None, "prop": 1, "proportion": 2, "offset": 3, "standardize": 4, "I": 5, "C": 6, "scale": 7}
+    return design_matrices(formula, df, extra_namespace=dict(decoys, np=np, **ns))
 
 
 def newframes(df):
